@@ -192,6 +192,67 @@ func (g *Gen) genArith(p *Prog, ops []string) {
 			if x.Exp < int64(decimal.MinExp) || y.Exp < int64(decimal.MinExp) {
 				x, y = g.pairForAdd(int(prec)+1, op == "sub")
 			}
+		} else if g.chance(0.12) {
+			// one operand far below the other's digits needed for rounding: it can only decide through the sticky
+			// bit (or, under subtraction from a power of ten, through a borrow across a decade). Precisions next to
+			// multiples of the word size, gaps on both sides of the precision and of the word boundaries, large operand
+			// a power of ten / all nines / exactly prec digits / short.
+			pw := []int{1, 2, 17, 18, 19, 20, 21, 36, 37, 38, 39, 40, 56, 57, 58, 75, 76}[g.intn(17)]
+			if g.chance(0.3) {
+				pw = 1 + g.intn(80)
+			}
+			prec = uint(pw)
+			var xd string
+			switch g.intn(5) {
+			case 0:
+				xd = "1"
+			case 1:
+				xd = strings.Repeat("9", pw+g.intn(3)-1+1)
+			case 2:
+				xd = "1" + strings.Repeat("0", g.intn(pw+20)) + "1"
+			case 3:
+				xd = g.shaped(pw)
+			default:
+				xd = g.digitsPattern(1 + g.intn(pw+25))
+			}
+			xd = strings.TrimLeft(xd, "0")
+			if xd == "" {
+				xd = "1"
+			}
+			xe := int64(g.intn(41) - 20)
+			if g.chance(0.1) {
+				xe = int64(decimal.MaxExp) - int64(g.intn(3))
+			}
+			if g.chance(0.1) {
+				xe = int64(decimal.MinExp) + int64(pw) + 100 + int64(g.intn(3))
+			}
+			gap := pw + g.intn(48) - 3 // digits between x's leading digit and y's leading digit
+			if g.chance(0.25) {
+				gap = 19*(1+g.intn(6)) + g.intn(3) - 1
+			}
+			if g.chance(0.15) {
+				gap = pw + 50 + g.intn(400)
+			}
+			if gap < 1 {
+				gap = 1
+			}
+			yd := []string{"1", "5", "9", "49999", "50001", "5"}[g.intn(6)]
+			if g.chance(0.3) {
+				yd = trimZeros(strings.TrimLeft(g.digitsPattern(1+g.intn(30)), "0") + "3")
+			}
+			negx := g.intn(2) == 0
+			negy := negx
+			if g.chance(0.65) {
+				negy = !negx // magnitudes subtract under add (and add under sub)
+			}
+			x = Val{Form: 1, Neg: negx, Digits: trimZeros(xd), Exp: xe, Prec: uint(len(xd)) + uint(g.intn(3)), Mode: g.mode()}
+			y = Val{Form: 1, Neg: negy, Digits: yd, Exp: xe - int64(gap), Prec: uint(len(yd)) + uint(g.intn(3)), Mode: g.mode()}
+			if x.Digits == "" {
+				x.Digits = "1"
+			}
+			if g.chance(0.5) {
+				x, y = y, x
+			}
 		} else if prec > 0 && g.chance(0.6) {
 			x, y = g.pairForAdd(int(prec), op == "sub")
 		} else {
@@ -449,6 +510,34 @@ func (g *Gen) genFMA(p *Prog) {
 				u.Exp = int64(decimal.MinExp)
 			}
 		}
+	}
+	if g.chance(0.12) {
+		// the exact product has the shape "prec digits + tail" (tails 5, 50…0, 49…9, 0…01 …) and u lies far below
+		// its last digit, on either side: the tiny addend alone breaks the tie / decides the directed rounding.
+		// x = R·5^a·2^b, y = 2^a·5^b, so that x·y = R·10^(a+b) exactly.
+		pw := []int{1, 2, 3, 5, 18, 19, 20, 37, 38, 39}[g.intn(10)]
+		if g.chance(0.3) {
+			pw = 1 + g.intn(60)
+		}
+		prec = uint(pw)
+		R := digitsToInt(g.shaped(pw))
+		if R.Sign() == 0 {
+			R.SetInt64(15)
+		}
+		a, b := int64(g.intn(4)), int64(g.intn(4))
+		xv := new(big.Int).Mul(R, new(big.Int).Exp(big.NewInt(5), big.NewInt(a), nil))
+		xv.Mul(xv, new(big.Int).Exp(big.NewInt(2), big.NewInt(b), nil))
+		yv := new(big.Int).Mul(new(big.Int).Exp(big.NewInt(2), big.NewInt(a), nil), new(big.Int).Exp(big.NewInt(5), big.NewInt(b), nil))
+		e := int64(g.intn(21) - 10)
+		x = intToVal(xv, e, g.intn(2) == 0, uint(g.intn(3)), g.mode())
+		y = intToVal(yv, 0, g.intn(2) == 0, uint(g.intn(3)), g.mode())
+		if g.chance(0.5) {
+			x, y = y, x
+		}
+		// the product is R·10^(a+b+e) with len(R) digits: its last digit has weight 10^(a+b+e)
+		below := 1 + g.intn(70)
+		ud := []string{"1", "5", "9", "123"}[g.intn(4)]
+		u = Val{Form: 1, Neg: g.intn(2) == 0, Digits: ud, Exp: a + b + e - int64(below) + int64(len(ud)), Prec: uint(len(ud)) + uint(g.intn(3)), Mode: g.mode()}
 	}
 	if g.chance(0.08) && x.Form == 1 && y.Form == 1 {
 		// precision-0 receiver: the result precision is the largest of ALL three operands, also when u is ±0
